@@ -10,7 +10,7 @@ S=/tmp/verif-cov
 rm -rf $S/prof; mkdir -p $S/prof $S/report
 BIN=$(ls -d ~/.rustup/toolchains/nightly-x86_64-unknown-linux-gnu/lib/rustlib/*/bin | head -1)
 python3 tools/gen_shadow.py /repo "$(pwd)/shadow"
-CARGO_NET_OFFLINE=true RUSTFLAGS="--cfg metrique_verif -C instrument-coverage" cargo +nightly build --offline -p verif-harness --target-dir $S/target 2>&1 | tail -2
+CARGO_NET_OFFLINE=true RUSTFLAGS="--cfg metrique_verif --cfg getrandom_backend=\"custom\" -C instrument-coverage" cargo +nightly build --offline -p verif-harness --target-dir $S/target 2>&1 | tail -2
 for p in C01 C04 C05 C06 C09 C10 C11 C12 C13 C14 C16 C17 C18 C20; do
   start=0
   while [ $start -lt $N ]; do
